@@ -47,6 +47,41 @@ def _free_loads(fn):
     return loads - own - stores
 
 
+def rebound_to_copy_before(fn, pname, node):
+    """Is `node` (a statement or expression inside function `fn`) preceded, on every path that reaches it, by a rebinding of the
+    name `pname` to a NEW container (p = dict(p), p = {**p}, p = list(p), p = p.copy(), p = copy.copy(p), ...)?  Decided
+    syntactically: such an assignment that comes earlier in the source and whose statement list is the statement list of an
+    enclosing block of `node` (so it is not skipped by a branch that `node` is not in)."""
+    parents = _parents(fn)
+
+    def chain(n):
+        out = []
+        while id(n) in parents:
+            n = parents[id(n)]
+            out.append(n)
+        return out
+    anc = chain(node)
+    anc_ids = {id(a) for a in anc}
+    for st in ast.walk(fn):
+        if not (isinstance(st, ast.Assign) and len(st.targets) == 1 and isinstance(st.targets[0], ast.Name) and st.targets[0].id == pname):
+            continue
+        if getattr(st, "lineno", 10**9) >= getattr(node, "lineno", 0):
+            continue
+        v = st.value
+        fresh = isinstance(v, (ast.Dict, ast.List, ast.Set, ast.DictComp, ast.ListComp, ast.SetComp)) or (
+            isinstance(v, ast.Call) and (norm(v.func) in ("dict", "list", "set", "copy.copy", "copy.deepcopy", "collections.OrderedDict", "sorted")
+                                         or (isinstance(v.func, ast.Attribute) and v.func.attr == "copy")))
+        if not fresh:
+            continue
+        holder_ = parents.get(id(st))
+        if holder_ is not None and (id(holder_) in anc_ids or holder_ is fn):
+            # the assignment sits directly in a block that encloses `node`: no way around it
+            if not isinstance(holder_, (ast.If, ast.For, ast.While, ast.Try, ast.With)) or any(st in getattr(holder_, f, []) and any(
+                    id(x) in anc_ids or x is node for x in getattr(holder_, f, [])) for f in ("body", "orelse", "finalbody")):
+                return True
+    return False
+
+
 def late_binding(funcs):
     """-> [(FunctionInfo, node of the callable, loop variable names, how it is deferred)] and the number of callables examined."""
     found, examined = [], 0
@@ -124,7 +159,7 @@ def mutable_defaults(funcs):
                                     hit = n
                                 if isinstance(n, ast.AugAssign) and isinstance(t, ast.Name) and t.id == p.arg:
                                     hit = n
-                        if hit is not None:
+                        if hit is not None and not rebound_to_copy_before(fn, p.arg, hit):
                             found.append((f, fn, p.arg, hit))
     return found, examined
 
